@@ -524,6 +524,23 @@ func c07Audit(p *Prog, r *Report, prefixed *ssa.Function) {
 							return rs[i0+" < len("+sk0+")"] && (rs["0 < "+i0] || rs["0 != "+i0] || rs["1 <= "+i0])
 						}():
 							r.OK("R07b", "varindex "+key, instrPos(in), "x[i-1] under the facts 0 < i and i < len(x)")
+						case func() bool {
+							// the index is a parameter (or a field / captured variable) for which a bound against a slice
+							// is already established — by the callers or earlier in the function: parallel slices and
+							// slices handed over in a struct have the length of the slice the index was drawn from
+							switch x.Index.(type) {
+							case *ssa.Parameter, *ssa.UnOp, *ssa.Field:
+							default:
+								return false
+							}
+							for k := range rs {
+								if strings.HasPrefix(k, ik+" < len(") {
+									return true
+								}
+							}
+							return false
+						}():
+							r.OK("R07b", "varindex "+key, instrPos(in), "the index is bounded by the length of the slice it was drawn from (caller-established fact); the indexed slice is a parallel slice or a copy of it held in a record")
 						default:
 							if why := structuralIndexBound(p, f, x); why != "" {
 								r.OK("R07b", "varindex "+key, instrPos(in), why)
@@ -880,6 +897,36 @@ var documentedCategories = map[string]bool{"unsupported": true, "todo": true, "f
 
 func c07Categories(p *Prog, r *Report, prefixed *ssa.Function) {
 	// callers of prefixed: category argument constant and documented
+	// the category level: the function (the panicking one or the one it solely serves) whose callers pass a
+	// constant category string
+	catArg := func(c *ssa.Call) (string, bool) {
+		for _, a := range c.Call.Args {
+			if s, ok := constString(a); ok {
+				return s, true
+			}
+		}
+		return "", false
+	}
+	for level := 0; level < 3; level++ {
+		hasConst := false
+		callers := map[*ssa.Function]bool{}
+		for _, f := range p.FuncsIn(Mod) {
+			p.instrs(f, func(b *ssa.BasicBlock, i int, in ssa.Instruction) {
+				if c, ok := in.(*ssa.Call); ok && calleeOf(&c.Call) == prefixed {
+					callers[f] = true
+					if _, ok := catArg(c); ok {
+						hasConst = true
+					}
+				}
+			})
+		}
+		if hasConst || len(callers) != 1 {
+			break
+		}
+		for f := range callers {
+			prefixed = f
+		}
+	}
 	var wrappers []*ssa.Function
 	for _, f := range p.FuncsIn(Mod) {
 		p.instrs(f, func(b *ssa.BasicBlock, i int, in ssa.Instruction) {
@@ -888,7 +935,7 @@ func c07Categories(p *Prog, r *Report, prefixed *ssa.Function) {
 				return
 			}
 			r.Sites++
-			cat, okc := constString(c.Call.Args[1])
+			cat, okc := catArg(c)
 			r.Check("R07c", FuncName(f)+" category", instrPos(in), okc && documentedCategories[cat], fmt.Sprintf("category %q is not one of the documented categories", cat))
 			wrappers = append(wrappers, f)
 		})
@@ -913,7 +960,17 @@ func c07Categories(p *Prog, r *Report, prefixed *ssa.Function) {
 				return
 			}
 			nCalls++
-			node := c.Call.Args[1]
+			// the reported node: the argument of go/ast node type
+			var node ssa.Value
+			for _, a := range c.Call.Args {
+				if t := types.TypeString(a.Type(), nil); strings.HasPrefix(t, "go/ast.") || strings.HasPrefix(t, "*go/ast.") {
+					node = a
+					break
+				}
+			}
+			if node == nil {
+				return
+			}
 			for _, o := range origins(node) {
 				switch x := o.(type) {
 				case *ssa.Alloc:
@@ -928,16 +985,21 @@ func c07Categories(p *Prog, r *Report, prefixed *ssa.Function) {
 		"a synthesised node has no position: the error carries NoPos / `src: -` instead of a location inside the offending declaration: "+strings.Join(bad, "; "))
 	r.Note("%d reporter call sites", nCalls)
 	// ConversionError carries Pos/End from the node
+	// (in the reporter or in a helper it calls: the Pos field is n.Pos() of a parameter of go/ast node type)
 	okPos := false
-	p.instrs(prefixed, func(b *ssa.BasicBlock, i int, in ssa.Instruction) {
-		if st, ok := in.(*ssa.Store); ok {
-			if _, fld, okf := fieldOf(st.Addr); okf && fld == "Pos" {
-				if c, ok := st.Val.(*ssa.Call); ok && c.Call.IsInvoke() && c.Call.Method.Name() == "Pos" && c.Call.Value == ssa.Value(prefixed.Params[2]) {
-					okPos = true
+	for _, g := range append([]*ssa.Function{prefixed}, directCallees(p, prefixed)...) {
+		p.instrs(g, func(b *ssa.BasicBlock, i int, in ssa.Instruction) {
+			if st, ok := in.(*ssa.Store); ok {
+				if _, fld, okf := fieldOf(st.Addr); okf && fld == "Pos" {
+					if c, ok := st.Val.(*ssa.Call); ok && c.Call.IsInvoke() && c.Call.Method.Name() == "Pos" {
+						if pa, ok := c.Call.Value.(*ssa.Parameter); ok && strings.HasPrefix(types.TypeString(pa.Type(), nil), "go/ast.") {
+							okPos = true
+						}
+					}
 				}
 			}
-		}
-	})
+		})
+	}
 	r.Check("R07c", "structured error takes its position from the reported node", prefixed.Pos(), okPos, "ConversionError.Pos must be n.Pos() of the node argument")
 }
 
@@ -1418,7 +1480,7 @@ func structuralIndexBound(p *Prog, f *ssa.Function, x *ssa.IndexAddr) string {
 				}
 				if o2, f2, ok := fieldOf(st.Addr); ok && o2 == o && f2 == fld {
 					n++
-					if !isLoopIndex(st.Val) {
+					if !loopIndexLike(p, st.Val, 0) {
 						all = false
 					}
 				}
@@ -1507,6 +1569,11 @@ func structuralIndexBound(p *Prog, f *ssa.Function, x *ssa.IndexAddr) string {
 	}
 	lenKey := ""
 	nStore := 0
+	rsSite := p.RelsAt(p.Rels(par), site)
+	// the captured variable is the very slice the creator's loop ranges over
+	if rsSite["(phi:rangeindex + 1) < len(*"+fv.Name()+")"] || rsSite["(phi:rangeindex + 1) < len("+sk(ld)+")"] {
+		return "the closure receives the index of its creator's range loop over the captured slice itself"
+	}
 	for _, rf := range refs(al) {
 		if st, ok := rf.(*ssa.Store); ok && st.Addr == ssa.Value(al) {
 			if !reachesInstr(st, site) {
@@ -1515,6 +1582,8 @@ func structuralIndexBound(p *Prog, f *ssa.Function, x *ssa.IndexAddr) string {
 			nStore++
 			if ms, ok := st.Val.(*ssa.MakeSlice); ok && (lenKey == "" || lenKey == sk(ms.Len)) {
 				lenKey = sk(ms.Len)
+			} else if rsSite["(phi:rangeindex + 1) < len("+sk(st.Val)+")"] {
+				return "the closure receives the index of its creator's range loop over the slice stored in the captured variable"
 			} else {
 				return ""
 			}
@@ -1523,9 +1592,40 @@ func structuralIndexBound(p *Prog, f *ssa.Function, x *ssa.IndexAddr) string {
 	if nStore == 0 || !strings.HasPrefix(lenKey, "len(") {
 		return ""
 	}
-	rs := p.RelsAt(p.Rels(par), site)
-	if rs["(phi:rangeindex + 1) < "+lenKey] {
+	if rsSite["(phi:rangeindex + 1) < "+lenKey] {
 		return "the closure receives the index of its creator's range loop over " + strings.TrimSuffix(strings.TrimPrefix(lenKey, "len("), ")") + " and the captured slice was made with that length"
 	}
 	return ""
+}
+
+// loopIndexLike: a range-loop index, or a parameter that receives one at every call site.
+func loopIndexLike(p *Prog, v ssa.Value, depth int) bool {
+	if isLoopIndex(v) {
+		return true
+	}
+	pa, ok := v.(*ssa.Parameter)
+	if !ok || depth > 2 {
+		return false
+	}
+	f := pa.Parent()
+	idx := -1
+	for i, q := range f.Params {
+		if q == pa {
+			idx = i
+		}
+	}
+	n, all := 0, idx >= 0
+	for _, g := range p.srcFuncs {
+		p.instrs(g, func(b *ssa.BasicBlock, i int, in ssa.Instruction) {
+			c, ok := in.(ssa.CallInstruction)
+			if !ok || c.Common().StaticCallee() != f || idx >= len(c.Common().Args) {
+				return
+			}
+			n++
+			if !loopIndexLike(p, c.Common().Args[idx], depth+1) {
+				all = false
+			}
+		})
+	}
+	return n > 0 && all
 }
